@@ -289,6 +289,8 @@ def gen(ctx, tier, rng):
         cs, ss = rb(rng, 32), rb(rng, 32)
         L.append(("KX", cs, ss))
         L.append("box.seed_keypair %s" % hexs(rb(rng, 32)))
+        for v in ("xsalsa", "xchacha"):      # ordinary keys: precomputation in every call form (disjoint, k over sk, k over pk)
+            L.append("box.beforenm %s %s %s" % (v, hexs(rb(rng, 32)), hexs(rb(rng, 32))))
     # weak public keys in kx / box
     for u in edpy.X_LOW[:5]:
         pk = u.to_bytes(32, "little")
@@ -297,6 +299,8 @@ def gen(ctx, tier, rng):
         L.append("kx.server %s %s %s" % (hexs(rb(rng, 32)), hexs(sk), hexs(pk)))
         L.append("box.easy xsalsa %s %s %s %s" % (hexs(rb(rng, 5)), hexs(rb(rng, 24)), hexs(pk), hexs(sk)))
         L.append("box.easy xchacha %s %s %s %s" % (hexs(rb(rng, 5)), hexs(rb(rng, 24)), hexs(pk), hexs(sk)))
+        L.append("box.beforenm xsalsa %s %s" % (hexs(pk), hexs(sk)))      # the precomputation itself, incl. the aliased forms (k over sk / over pk) run by the harness
+        L.append("box.beforenm xchacha %s %s" % (hexs(pk), hexs(sk)))
     for n in list(range(0, 70)) + [255, 256, 1000]:
         for v in ("xsalsa", "xchacha"):
             L.append(("BOX", v, rb(rng, n), rb(rng, 24), rb(rng, 32), rb(rng, 32)))
